@@ -35,13 +35,21 @@ OUTSIDE = ["contents longer than n bytes (the code never inspects content)",
            "Windows (non-atomic rename) branch of both functions"]
 ASSUMPTIONS = ["fake filesystem contract: rename is atomic; a crashed write leaves a prefix of its data; data "
                "and directory operations become durable in program order; after the crash no further call of "
-               "the dead process reaches the disk; validated against the real OS on a script of 50 calls on "
+               "the dead process reaches the disk; validated against the real OS on a script of 70 calls on "
                "every run (vlib.fakefs.selftest)",
+               "file objects are buffered as in CPython: write() fills a per-handle buffer that reaches the disk "
+               "(one crash step, possibly torn) only at flush/close/seek/truncate/read or when a write no longer "
+               "fits (a write larger than the buffer goes straight through); a crash loses unflushed buffers; the "
+               "buffer size is scaled down to 1 byte so that both behaviours are inside the content bound; "
+               "validated against real file objects on every run",
                "os.urandom is deterministic (successive temporary names differ)",
                "under the solver file contents are LBytes over symbolic text (only concatenated, measured and "
                "sliced by the filesystem model); in replay they are real bytes"]
 EXPLANATION = ("real setContent / Persistent.save on a fake filesystem with symbolic crash step, torn-write "
                "length and contents; the disk after the crash is compared with old and new")
+
+
+BUFSIZE = 1      # scaled-down file buffer: 0..1 byte contents stay buffered until close, longer ones do not
 
 
 def selftest():
@@ -50,6 +58,7 @@ def selftest():
 
 def _fs():
     fs = FakeFS(empty=b(""))
+    fs.bufsize = BUFSIZE
     fs.dirs.add("/d")
     return fs
 
